@@ -67,6 +67,24 @@ ADDED6 = {
     "C20": "a third property spelled like the de-collided field name (a / A / a_2); long names with a common 100+ character prefix.",
 }
 
+# seventh round: ten more seeded changes plus the defects of the unmodified tree their authors reported
+ADDED7 = {
+    "C01": "tags spelled like a schema of the document, one operation per position the schema can appear in.",
+    "C02": "documents that are merely large (hundreds of references to one finished schema, with and without a rewritten name); primitive properties whose JSON "
+           "key is spelled like a schema; integer enums without a type keyword, inline and referenced, in the catalogue.",
+    "C07": "the trigger class of tags named like a member of APIClient (recorded finding).",
+    "C08": "the rewritten naming scheme (state keyed by declared names, registry by derived names).",
+    "C09": "re-run of either client after two clients share a core; the command line with post-processing ON under different hash seeds, working directories "
+           "and roots; an odd project-root path; a prior run with another core layout (every file under the package roots, whatever its suffix).",
+    "C11": "non-IANA status codes; the owner of an embedded shared core may be force-regenerated.",
+    "C12": "the default mode (post-processing ON): the runtime modules must still be the shipped bytes; operations with rarely met response media types.",
+    "C13": "operations with rarely met response media types (YAML, multipart/mixed, json-seq, XML).",
+    "C14": "variants that share one enum schema for the discriminator property; discriminator values that differ only in case or punctuation.",
+    "C15": "eight more positions: schema / property titles, the discriminator property name, root tag and externalDocs descriptions, a parameter default, inline enum values.",
+    "C16": "reference cycles with annotations spelled as generated models spell them (recorded finding); dataclass inheritance with base and derived class converted in one process.",
+    "C19": "the shape catalogue and a merely large document under the permutation differential.",
+}
+
 # id -> (category, technique, level text, level note, design ref)
 CHECKS = {
     "C15": ("exploration", "runtime monitoring: position x payload matrix through the real generator with AST-skeleton differential and literal read-back oracles",
@@ -231,6 +249,8 @@ def main() -> None:
                 text = text + " Added while building: " + ADDED[pid]
             if pid in ADDED6:
                 text = text + " Sixth round: " + ADDED6[pid]
+            if pid in ADDED7:
+                text = text + " Seventh round: " + ADDED7[pid]
             checks.append({
                 "property_id": pid,
                 "quick_cmd": f"./check {pid} --tier quick",
